@@ -166,7 +166,24 @@ pub struct SimReader {
     pos: u64,
     plan: Arc<Plan>,
 }
+/// Handle on the fault plan of a reader made with `SimReader::with_fault`.
+#[derive(Clone)]
+pub struct ReaderCtl(Arc<Plan>);
+impl ReaderCtl {
+    /// the archive is open: `HardAt` / `Short` / `Eintr` count operations from now on
+    pub fn opened(&self) {
+        self.0.opened.store(true, Ordering::Relaxed);
+        self.0.ops.store(0, Ordering::Relaxed);
+    }
+    pub fn fired(&self) -> u64 {
+        self.0.fired.load(Ordering::Relaxed)
+    }
+}
 impl SimReader {
+    pub fn with_fault(bytes: Vec<u8>, fault: RFault) -> (SimReader, ReaderCtl) {
+        let plan = Arc::new(Plan { fault, ops: AtomicU64::new(0), opened: false.into(), fired: AtomicU64::new(0) });
+        (SimReader { data: Arc::new(bytes), pos: 0, plan: plan.clone() }, ReaderCtl(plan))
+    }
     fn tick(&self, what: &str) -> io::Result<()> {
         detsim::yield_point("reader.io");
         let k = self.plan.ops.fetch_add(1, Ordering::Relaxed);
